@@ -909,6 +909,20 @@ fn main() {
         "gen" => generate(a.seed, a.n, &a.tier),
         "run" => run(),
         "probe" => probe(),
+        // exit 3 when the sandbox offers no loop-back TCP (the check then runs the proof obligations only)
+        "probe-env" => {
+            let ok = TcpListener::bind("127.0.0.1:0").and_then(|l| {
+                let addr = l.local_addr()?;
+                let c = TcpStream::connect(addr)?;
+                let _ = l.accept()?;
+                drop(c);
+                Ok(())
+            });
+            if let Err(e) = ok {
+                println!("no loop-back TCP socket: {e}");
+                std::process::exit(3)
+            }
+        }
         _ => {
             eprintln!("usage: c13s gen <seed> <n> <tier> | run < cases");
             std::process::exit(2)
